@@ -72,20 +72,23 @@ Edges == {
 EdgeNamed(n) == CHOOSE e \in Edges : e.fn = n
 EdgeNames    == {e.fn : e \in Edges}
 
-\* the other conversions each function calls (read off methods.py).  Not part of the property: the driver
-\* uses it only to name the most likely culprit when closed walks fail.
-Uses(fn) ==
+\* the other conversions each function calls directly (read off methods.py), and the transitive closure.
+\* Not part of the property: the driver uses it only to name the most likely culprit when closed walks fail.
+Calls(fn) ==
   CASE fn = "eci2sez"     -> {"eci2ecef", "ecef2sez"}
     [] fn = "sez2eci"     -> {"sez2ecef", "ecef2eci"}
     [] fn = "eci2lla"     -> {"eci2ecef", "ecef2lla"}
     [] fn = "lla2eci"     -> {"lla2ecef", "ecef2eci"}
-    [] fn = "eci2razel"   -> {"eci2ecef", "ecef2lla", "ecef2sez", "sez2razel"}
-    [] fn = "radec2razel" -> {"eci2ecef", "ecef2lla", "ecef2sez", "sez2razel"}
+    [] fn = "eci2razel"   -> {"eci2ecef", "ecef2lla", "ecef2sez", "sez2razel"}     \* via getSlantRangeVector
+    [] fn = "radec2razel" -> {"eci2razel"}
     [] fn = "razel2radec" -> {"eci2ecef", "ecef2lla", "razel2sez", "sez2ecef", "ecef2eci"}
-    [] fn = "radarObs2eciPosition" -> {"eci2ecef", "ecef2lla", "razel2sez", "sez2ecef", "ecef2eci"}
-    [] fn = "eci2radec"   -> {"eci2ecef", "ecef2lla", "ecef2sez", "sez2razel", "razel2sez", "sez2ecef", "ecef2eci"}
+    [] fn = "radarObs2eciPosition" -> {"razel2sez", "eci2ecef", "ecef2lla", "sez2eci"}
+    [] fn = "eci2radec"   -> {"eci2razel", "razel2radec"}
     [] fn = "eci2ntw"     -> {"ntw2eci"}
     [] OTHER              -> {}
+RECURSIVE UsesFrom(_)
+UsesFrom(S) == LET N == S \cup UNION {Calls(n) : n \in S} IN IF N = S THEN S ELSE UsesFrom(N)
+Uses(fn) == UsesFrom(Calls(fn))
 ASSUME UsesAreEdges == \A n \in EdgeNames : Uses(n) \subseteq EdgeNames
 
 \* ---- well-formedness of the graph itself (checked once by TLC) ----
